@@ -386,14 +386,27 @@ func findSeenGuard(b *ssa.BasicBlock) *seenGuard {
 	return best
 }
 
+// isOpConstructor: a function of the operation package that builds an operation from
+// (key, opcode, ...): its second parameter is the opcode string, its result an operation.
+func isOpConstructor(call ssa.CallInstruction) bool {
+	g := call.Common().StaticCallee()
+	if g == nil || g.Pkg == nil || g.Pkg.Pkg.Path() != repoMod+"/stores/operation" || g.Signature.Recv() != nil {
+		return false
+	}
+	ps := g.Signature.Params()
+	if ps.Len() < 2 || len(call.Common().Args) < 2 || g.Signature.Results().Len() == 0 {
+		return false
+	}
+	if b, ok := ps.At(1).Type().Underlying().(*types.Basic); !ok || b.Kind() != types.String {
+		return false
+	}
+	return strings.Contains(typeStr(g.Signature.Results().At(0).Type()), "operation")
+}
+
 // ---------------------------------------------------------------------------
 // I3
 
 func (c *Ctx) ruleI3() {
-	newOp := map[string]bool{
-		repoMod + "/stores/operation.NewOperation":              true,
-		repoMod + "/stores/operation.NewOperationWithDocuments": true,
-	}
 	type pk struct {
 		written  map[string]token.Pos
 		deleteOp map[string]bool
@@ -417,12 +430,14 @@ func (c *Ctx) ruleI3() {
 		}
 		pp := strings.TrimPrefix(f.Pkg.Pkg.Path(), repoMod+"/")
 		eachCall(f, func(call ssa.CallInstruction) {
-			if newOp[calleeFull(call)] && len(call.Common().Args) >= 2 {
+			if isOpConstructor(call) {
 				if s, ok := constString(call.Common().Args[1]); ok {
 					get(pp).written[s] = call.Pos()
 					if topLevel(f).Name() == "Delete" {
 						get(pp).deleteOp[s] = true
 					}
+				} else if _, isParam := call.Common().Args[1].(*ssa.Parameter); isParam && f.Pkg.Pkg.Path() == repoMod+"/stores/operation" {
+					// one constructor delegating to another: the opcode is its caller's
 				} else {
 					c.undecided("I3", fnKey(f)+"→NewOperation#opcode", call.Pos(), "opcode is not a constant")
 				}
@@ -942,5 +957,9 @@ func (c *Ctx) ruleI5() {
 			c.ok("I5", fk+"#listing-mutated", muts[0].in.Pos(), "the listing mutated in place is freshly built by the installed index on every call")
 		}
 	}
-	c.floor("I5", "in-place mutations of index listings", n, 1)
+	c.Counts["I5:in-place mutations of index listings"] = n
+	if n == 0 {
+		// nothing reorders a listing in place any more: nothing a shared listing could suffer from
+		c.ok("I5", "no-listing-mutated-in-place", token.NoPos, "no store function mutates a listing obtained from its index in place")
+	}
 }
